@@ -64,7 +64,7 @@ func init() {
 			"deep/wide/mixed documents; SP configurations normal / bare / failing store / skip / no keys; oracle: the call returns, pointer results obey exactly-one-of(result, error), no panic or fatal exit; distinct = shape hash (family, kind, base, offset bucket, config, outcome classes)",
 		Directed:   c09Directed,
 		Run:        c09Run,
-		MustHit:    []string{"family=corrupt", "family=cipher", "family=shape", "family=mutate", "truncate", "bitflip", "cipher=length-sweep", "cipher=cbc-last-byte", "cipher=cbc-all-zero", "cipher=wrapped-key-length", "cipher=cbc-pad-then-zeros", "cfg=bare(empty-store,no-keys,nil-clock)", "cfg=failing-store", "cfg=validate-enc-cert+garbage-cert", "cfg=limit=maxint64", "cfg=limit=negative", "cfg=validate-enc-cert+tls-store-empty-chain", "cfg=tls-store-zero-value", "cfg=setter-key-without-certificate", "cipher=algorithm-dictionary", "cipher=x509data-variants", "via_unsigned_response", "deep_document"},
+		MustHit:    []string{"family=corrupt", "family=cipher", "family=shape", "family=mutate", "truncate", "bitflip", "cipher=length-sweep", "cipher=cbc-last-byte", "cipher=cbc-all-zero", "cipher=wrapped-key-length", "cipher=cbc-pad-then-zeros", "cfg=bare(empty-store,no-keys,nil-clock)", "cfg=failing-store", "cfg=validate-enc-cert+garbage-cert", "cfg=limit=maxint64", "cfg=limit=negative", "cfg=validate-enc-cert+tls-store-empty-chain", "cfg=tls-store-zero-value", "cfg=setter-key-without-certificate", "cipher=algorithm-dictionary", "cipher=x509data-variants", "via_unsigned_response", "deep_document", "lean_genuine_message"},
 		RandomRuns: map[string]int{"quick": 2500, "thorough": 150000},
 		Assumptions: []string{"stack exhaustion / fatal runtime errors are caught through the worker crash journal and reported as violations",
 			"for []byte results (DecryptBytes) an empty plaintext with nil error is a legitimate result; the exactly-one rule is applied to pointer results"},
@@ -162,6 +162,15 @@ func c09Directed(tier string) [][]uint64 {
 	for sh := uint64(0); sh < 8; sh++ {
 		for cfg := uint64(0); cfg < uint64(len(c09Cfgs)); cfg++ {
 			out = append(out, []uint64{2, sh, 0, cfg, sh * 3, 0})
+		}
+	}
+	// genuine lean messages: every combination of missing optional parts, first-and-later / later-only, normal and skip configuration
+	for mask := uint64(1); mask < 64; mask++ {
+		if tier == "quick" && mask > 8 && mask&(mask-1) != 0 && mask%5 != 0 {
+			continue
+		}
+		for _, cfg := range []uint64{0, 3} {
+			out = append(out, []uint64{2, 8, 0, cfg, mask, mask % 4})
 		}
 	}
 	return out
@@ -485,7 +494,7 @@ func c09Run(r *core.Run) {
 		r.Sample = obs("family", family, "base", base, "base_kind", mkind, "mutations", muts, "config", cfgName, "outcomes", classes)
 
 	case "shape":
-		sh := kindRaw % 8
+		sh := kindRaw % 9
 		var doc string
 		P := `xmlns:samlp="` + world.NSProtocol + `" xmlns:saml="` + world.NSAssertion + `"`
 		depth := 10 + (p1%10)*1000
@@ -514,6 +523,41 @@ func c09Run(r *core.Run) {
 				`<ds:Signature xmlns:ds="` + world.NSDsig + `"><ds:SignedInfo><ds:CanonicalizationMethod/><ds:Reference/></ds:SignedInfo><ds:SignatureValue/></ds:Signature>`,
 			}
 			doc = `<samlp:Response ` + P + ` ID="_d" Version="2.0"><saml:Issuer>x</saml:Issuer>` + sigs[p1%len(sigs)] + `<saml:Assertion ID="_a">` + sigs[(p1+p2)%len(sigs)] + `</saml:Assertion></samlp:Response>`
+		case 8: // genuine, trusted, but lean: assertions lacking optional parts in every combination (p1 = bit mask per part, p2 = which assertions)
+			idp := &world.IdP{Name: "lean"}
+			bt := core.NewGenTape(uint64(9000+p1), nil)
+			m := world.GenResponse(bt, idp, s.Fed, now, 2+p2%2, false)
+			m.Sign = world.PlainSigOpts(s.IdPKey, s.IdPCert)
+			for i, a := range m.Assertions {
+				if (p2/2)%2 == 0 && i == 0 {
+					continue // only the later assertions
+				}
+				if p1&1 != 0 {
+					a.HasConditions, a.NotBefore, a.NotOnOrAfter, a.AudienceRestrictions = false, nil, nil, nil
+				}
+				if p1&2 != 0 {
+					a.HasAttrStmt, a.Attrs = false, nil
+				}
+				if p1&4 != 0 {
+					a.Authn = nil
+				}
+				if p1&8 != 0 {
+					a.NameID = nil
+				}
+				if p1&16 != 0 {
+					a.Issuer = nil
+				}
+				if p1&32 != 0 {
+					a.HasSubject = false
+				}
+			}
+			x, err := idp.Issue(m, world.Layout{}, 0)
+			if err != nil {
+				r.HarnessError("lean message: %v", err)
+				return
+			}
+			doc = x
+			r.Probe("lean_genuine_message")
 		default: // huge attribute / text
 			doc = `<samlp:Response ` + P + ` ID="_d" Version="2.0" Destination="` + strings.Repeat("A", 1+depth*10) + `"><saml:Issuer>` + strings.Repeat("&amp;", depth) + `</saml:Issuer></samlp:Response>`
 		}
